@@ -1,6 +1,7 @@
 (* SrcTie3CompCarry.v — theorems of the model carried over to the TRANSLATED compress.rs (work package compT):
    the refinement (C11), usability after an error (C08) and the prefix property of the fail-safe reader (C02)
    hold of the code generated from the source, through the simulations of SrcTie3Comp.v / SrcTie3CompFs.v. *)
+From MLA Require Import Limit.
 From MLA Require Import Base Stream CompLayer CompLayerProofs CompFailSafe SrcTie3Comp SrcTie3CompFs.
 From MLAGen Require Src3c.
 From Coq Require Import ZifyBool ZifyNat ZifyN.
